@@ -43,7 +43,7 @@ ASSUMPTIONS = [
     'code (which would silently take the code over) are not declared',
 ]
 SHARDS = {'quick': 4, 'thorough': 16}
-TIMEOUT = {'quick': 300, 'thorough': 1800}
+TIMEOUT = {'quick': 900, 'thorough': 3600}
 ANCHORS = [
     ('pjrpc/common/v20.py', 'Request.to_json'), ('pjrpc/common/v20.py', 'Request.from_json'),
     ('pjrpc/common/v20.py', 'Response.to_json'), ('pjrpc/common/v20.py', 'Response.from_json'),
